@@ -17,6 +17,7 @@
 (*                  prints for the address `address` prints                *)
 (*  SilentFailure   a failed run has no output                             *)
 (*  SelectorsExclusive  both selectors given never prints                  *)
+(*  ChannelIndependent  the outcome is the same on every input channel     *)
 (*  Terminates      every behaviour reaches printed / failed / open        *)
 (***************************************************************************)
 EXTENDS GenCli, FiniteSets
@@ -90,6 +91,11 @@ SourcesEquivalent ==
 \* the over-large chain id class is open: the spec must not claim a printed-only outcome there
 OverflowIsOpen ==
   (st.pc = "printed" /\ IsSignTx /\ st.tx.kind = "legacy" /\ st.tx.chainId # <<>> /\ ~VFits256(st.tx.chainId)) => st.either
+\* the outcome does not depend on the channel the input arrives on (regular file, stdin, named pipe, /dev/stdin)
+ChannelIndependent ==
+  (st.pc \in Terminal /\ st.cmd.chan \in {"file", "stdin"}) =>
+    \A ch \in {"file", "stdin", "fifo", "devstdin"} :
+      LET f == Run([st.cmd EXCEPT !.chan = ch]) IN f.pc = st.pc /\ f.out = st.out /\ f.why = st.why
 Terminates == <>(st.pc \in Terminal)
 ASSUME Cardinality(Commands) = 48 + 4 + 8 + 162
 \* anti-vacuity: the command set reaches every terminal kind, every refusal the invariants speak about, and a
